@@ -292,6 +292,9 @@ def main():
             status['driver'] = {'ok': ok, 'message': msg[-800:]}
         R.model_available = ok and os.path.exists(R.driver)
         R.translation_ok = all(x['ok'] for x in status['translation'])
+        if not R.translation_ok:
+            # the proofs were re-checked against a stale generated file: they say nothing about the current source
+            proof['discharged'] = 0
         R.proof_ok = not proof['broken']
 
         # ---- steps 4: correspondence + oracle
